@@ -64,6 +64,60 @@ func (l *ledger) contractSupplyOracle(b *types.Block, miner common.Address, byHa
 			}
 			if executed && tx.Amount().Sign() > 0 {
 				c.Count("contract:call-with-value")
+				c.Count("contract:call-with-value:" + cls)
+			}
+		}
+	}
+	// addresses that an INNER value flow of this block may credit (forward targets of the called forwarder-like contracts,
+	// and the contracts a forward-to-contract chain reaches): not judged by the per-sender checks below
+	innerHits := map[common.Address]int{}
+	for _, tx := range b.Txs {
+		if tx.To() != nil {
+			if f, ok := l.fwd[*tx.To()]; ok {
+				innerHits[f]++
+				if f2, ok2 := l.fwd[f]; ok2 {
+					innerHits[f2]++
+				}
+			}
+		}
+	}
+	// ---- INNER value flow of a plain forwarder (CALL(GAS, F, CALLVALUE, ...); STOP) called once with value and ample gas,
+	// F an externally owned account nothing else in the block touches: F receives exactly the amount, the forwarder keeps
+	// nothing of it; forwarder-revert: nobody but the gas payer's fee moves
+	{
+		touched := map[common.Address]int{}
+		for _, tx := range b.Txs {
+			touched[tx.From()]++
+			if tx.GasPayer() != tx.From() {
+				touched[tx.GasPayer()]++
+			}
+			if tx.To() != nil {
+				touched[*tx.To()]++
+			}
+		}
+		mInc := l.view(b.ParentHash(), miner).income
+		for _, tx := range b.Txs {
+			if tx.Type() != params.OrdinaryTx || tx.To() == nil || tx.Amount().Sign() == 0 {
+				continue
+			}
+			to := *tx.To()
+			cls := contractClass[to]
+			f, isFwd := l.fwd[to]
+			if !isFwd || (cls != "create-forwarder" && cls != "create-forwarder-revert" && cls != "create-overdrafter") || !parentCode(to) || parentCode(f) || touched[to] != 1 || touched[f] != 0 || innerHits[f] != 1 || f == mInc || f == to || tx.GasLimit() < 70000 {
+				continue
+			}
+			gotF := new(big.Int).Sub(l.n.balanceAt(b.Hash(), f), parentBal(f))
+			gotC := new(big.Int).Sub(l.n.balanceAt(b.Hash(), to), parentBal(to))
+			wantF, wantC := tx.Amount(), new(big.Int)
+			switch cls {
+			case "create-forwarder-revert":
+				wantF = new(big.Int)
+			case "create-overdrafter":
+				wantF, wantC = new(big.Int), tx.Amount()
+			}
+			c.Count("nontrivial:contract:inner-value-flow-judged:" + cls)
+			if gotF.Cmp(wantF) != 0 || gotC.Cmp(wantC) != 0 {
+				c.Fail("c05/inner-value-flow/"+cls, fmt.Sprintf("block %d: call of a %s contract with value %s (gasUsed %d of %d): the forward target received %s (expected %s), the contract's balance changed by %s (expected %s)", b.Height(), cls, tx.Amount(), tx.GasUsed(), tx.GasLimit(), gotF, wantF, gotC, wantC), nil)
 			}
 		}
 	}
@@ -113,7 +167,7 @@ func (l *ledger) contractSupplyOracle(b *types.Block, miner common.Address, byHa
 			}
 		}
 		// the sender's side, when nothing else in the block touches the sender
-		if from := tx.From(); txsOf[from] == 1 && from != minerIncome && tx.GasPayer() == from {
+		if from := tx.From(); txsOf[from] == 1 && innerHits[from] == 0 && from != minerIncome && tx.GasPayer() == from {
 			paid := new(big.Int).Sub(parentBal(from), l.n.balanceAt(b.Hash(), from))
 			want := new(big.Int).Set(fee)
 			if succeeded {
@@ -153,6 +207,14 @@ func (l *ledger) contractSupplyOracle(b *types.Block, miner common.Address, byHa
 	}
 	if mv := l.view(b.ParentHash(), miner); mv.incomeSet {
 		named[mv.income] = true
+	}
+	// every address of the harness's own universe (inner CALL / CREATE targets are among them or carry a log): a balance
+	// that moves without any log or tx naming its owner is seen too
+	for _, a := range l.univ {
+		named[a] = true
+	}
+	for a := range contractClass {
+		named[a] = true
 	}
 	byView := new(big.Int)
 	for a := range named {
